@@ -120,6 +120,7 @@ func OpenDB(opt nutsdb.Options) (db *nutsdb.DB, err error, pan string) {
 func (r *Runner) open(stepID int) bool {
 	r.W.Phase = "open"
 	db, err, pan := OpenDB(r.DBOpt)
+	r.W.Disk.FlushMmap()
 	r.W.Phase = ""
 	if pan != "" {
 		r.viol("open-panic", stepID, -1, "Open", "Open panicked: %s", pan)
@@ -139,8 +140,8 @@ func (r *Runner) open(stepID int) bool {
 
 var errFn = errors.New("harness: transaction function returns an error")
 
-// safe runs f with panics recovered.
-func safe(f func()) (pan string) {
+// Safe runs f with panics recovered.
+func Safe(f func()) (pan string) {
 	defer func() {
 		if r := recover(); r != nil {
 			pan = PanicInfo(r)
@@ -154,7 +155,7 @@ func safe(f func()) (pan string) {
 func (r *Runner) Observe() ([]prog.Res, string) {
 	out := make([]prog.Res, len(r.ObsOps))
 	var verr error
-	pan := safe(func() {
+	pan := Safe(func() {
 		verr = r.DB.View(func(tx *nutsdb.Tx) error {
 			for i, op := range r.ObsOps {
 				out[i] = Do(tx, op)
@@ -273,7 +274,7 @@ func (r *Runner) txStep(st *prog.Step, tr *StepTrace) {
 	var pan string
 	switch {
 	case st.End == "rollback":
-		pan = safe(func() {
+		pan = Safe(func() {
 			var tx *nutsdb.Tx
 			tx, err = r.DB.Begin(writable)
 			if err != nil {
@@ -287,10 +288,11 @@ func (r *Runner) txStep(st *prog.Step, tr *StepTrace) {
 			}
 		})
 	case writable:
-		pan = safe(func() { err = r.DB.Update(body) })
+		pan = Safe(func() { err = r.DB.Update(body) })
 	default:
-		pan = safe(func() { err = r.DB.View(body) })
+		pan = Safe(func() { err = r.DB.View(body) })
 	}
+	r.W.Disk.FlushMmap()
 	r.W.InFlight = -1
 	if pan != "" {
 		r.viol("panic", st.ID, -1, "Commit", "transaction panicked outside an API call (Commit?): %s", pan)
@@ -319,7 +321,7 @@ func (r *Runner) txStep(st *prog.Step, tr *StepTrace) {
 
 func (r *Runner) closeDB(stepID int) bool {
 	var err error
-	pan := safe(func() { err = r.DB.Close() })
+	pan := Safe(func() { err = r.DB.Close() })
 	if pan != "" {
 		r.viol("panic", stepID, -1, "Close", "Close panicked: %s", pan)
 		r.Dead = true
@@ -373,7 +375,8 @@ func (r *Runner) reopen(st *prog.Step, tr *StepTrace) {
 func (r *Runner) merge(st *prog.Step, tr *StepTrace) {
 	var err error
 	r.W.Phase = "merge"
-	pan := safe(func() { err = r.DB.Merge() })
+	pan := Safe(func() { err = r.DB.Merge() })
+	r.W.Disk.FlushMmap()
 	r.W.Phase = ""
 	if pan != "" {
 		r.viol("panic", st.ID, -1, "Merge", "Merge panicked: %s", pan)
@@ -387,7 +390,7 @@ func (r *Runner) merge(st *prog.Step, tr *StepTrace) {
 
 func (r *Runner) backup(st *prog.Step, tr *StepTrace) {
 	var err error
-	pan := safe(func() { err = r.DB.Backup(st.Dir) })
+	pan := Safe(func() { err = r.DB.Backup(st.Dir) })
 	if pan != "" {
 		r.viol("panic", st.ID, -1, "Backup", "Backup panicked: %s", pan)
 		r.Dead = true
@@ -414,7 +417,7 @@ func (r *Runner) restart(st *prog.Step, tr *StepTrace) {
 // Finish closes the database (ignoring errors) so that images can be mounted.
 func (r *Runner) Finish() {
 	if r.DB != nil && !r.Dead {
-		safe(func() { r.DB.Close() })
+		Safe(func() { r.DB.Close() })
 	}
 	r.DB = nil
 }
